@@ -282,3 +282,75 @@ func TestC20SnapGeneratorConsistent(t *testing.T) {
 		}
 	}
 }
+
+// Stream sizes: every shape at a moderate size is accepted on the implementation; the oracle
+// rejects a deep level that fails to render, loses the tokens of the levels above a limit, or
+// differs from its original; the stamp-based "unchanged" check sees exactly the appends to
+// the rendered variable and to its originals.
+func TestC20Sizes(t *testing.T) {
+	for _, sh := range []string{"chain", "bare-chain", "fan", "long", "comb"} {
+		for _, n := range []int{1, 2, 3, 40, 300} {
+			sp := c20Size{Shape: sh, N: n, Seed: int64(n) + 5}
+			c := c20SizeCase(sp, "test")
+			got := hist.NewWorld().Exec(c.Hist)
+			if v := (c20{}).Oracle(c, got); v != "" {
+				t.Fatalf("%v: oracle fails on the implementation: %s", sp, v)
+			}
+			if n >= 3 && !c.NonTrivial {
+				t.Errorf("%v is not counted as non-trivial", sp)
+			}
+			if n == 300 {
+				// the deepest renders replaced by an error / by a truncated text
+				ops := c.Meta["ops"].([]c20Op)
+				depth := map[int]int{}
+				k := 0
+				for _, op := range ops {
+					switch op.Kind {
+					case "clone":
+						depth[op.V] = depth[op.From] + 1
+					case "render":
+						if sh != "fan" && sh != "long" && depth[op.V] > 250 {
+							bad := append([]hist.Obs(nil), got...)
+							bad[k] = hist.Obs{Kind: "bad", Msg: "unexpected error: statements nested too deep"}
+							if v := (c20{}).Oracle(c, bad); !strings.Contains(v, "got bad") || len(v) > 2000 {
+								t.Fatalf("%v: failed render of variable %d: oracle says %.300q (%d bytes)", sp, op.V, v, len(v))
+							}
+							if len(got[k].Out) > 10 {
+								bad[k] = hist.Obs{Kind: "write", Out: got[k].Out[len(got[k].Out)/2:]}
+								if v := (c20{}).Oracle(c, bad); !strings.Contains(v, "renders") {
+									t.Fatalf("%v: truncated render of variable %d: oracle says %.300q", sp, op.V, v)
+								}
+							}
+						}
+						k++
+					}
+				}
+			}
+			for _, cand := range (c20{}).Shrink(c) {
+				if m := cand.Meta["size"].(c20Size); m.N >= n || m.N < 1 || m.Shape != sh {
+					t.Fatalf("shrink candidate %v of %v", m, sp)
+				}
+			}
+		}
+	}
+	if len(c20SizesGenerate(rand.New(rand.NewSource(1)), "quick")) < 10 {
+		t.Error("too few size cases")
+	}
+	// unchanged-output check through a chain: v0 <- v1 <- v2; appends to v1 concern v1 and v2 only
+	id := func(s string) c20Item { return c20Item{Node: term.Id(s), Text: s} }
+	ops := []c20Op{{Kind: "new", V: 0}, {Kind: "append", V: 0, Chained: true, Items: []c20Item{id("a")}},
+		{Kind: "clone", V: 1, From: 0}, {Kind: "clone", V: 2, From: 1},
+		{Kind: "render", V: 0}, {Kind: "render", V: 2},
+		{Kind: "append", V: 1, Chained: true, Items: []c20Item{id("b")}},
+		{Kind: "render", V: 0}, {Kind: "render", V: 2}}
+	c := c20Case(ops, "test", "")
+	if v := (c20{}).Oracle(c, []hist.Obs{wr("a"), wr("a"), wr("a"), fe("a b")}); v != "" {
+		t.Errorf("good outputs rejected: %s", v)
+	}
+	if v := (c20{}).Oracle(c, []hist.Obs{wr("a"), wr("a"), fe("a b"), fe("a b")}); !strings.Contains(v, "variable 0") {
+		t.Errorf("append to a clone showing in the original: %q", v)
+	}
+	if v := (c20{}).Oracle(c, []hist.Obs{wr("a"), wr("a"), wr("a"), wr("a")}); !strings.Contains(v, "variable 2") {
+		t.Errorf("append to the original of a clone not showing in the clone: %q", v)
+	}
+}
